@@ -105,6 +105,10 @@ def run_conc(prop, tier, seed, replay, extra=None, gate0=None):
             cbx = rng.choice([10, 11])
             g = hist.Geom(cbx, rng.choice([4, 6]), rng.choice([140, 200]) << cbx, 9, (9, rng.choice([2, 3, 8]) << 9), rb, punch=rng.choice([1, 1, 0]))
             g.tail = (rng.choice([24, 64]) << cbx, rng.choice([0xEE, 0x80, 0x01]))
+        if rng.random() < 0.07:
+            # many L2 slices (one per 64 clusters) and the smallest L2 cache: concurrent writes spread over more slices
+            # than the cache holds
+            g = hist.Geom(9, rng.choice([4, 6]), (64 * rng.choice([6, 8, 12])) << 9, 9, (9, rng.choice([2, 2, 3]) << 9), rb, punch=rng.choice([1, 1, 0]))
         cid = '%s_%d' % (prop.lower(), k)
         init = None
         images = None
